@@ -1,5 +1,10 @@
-"""C01 — generator of programs *inside the fragment of the Coq theorem* (coq/Types/Syntax.v), printed
-both as Nickel source and as the s-expression read by the extracted evaluator (ocaml/c01/driver.ml).
+"""C01 — generator of programs *inside the fragment of the Coq theorem* (coq/Types/Syntax.v).
+
+Every program is generated type-directed as an AST whose nodes carry their intended type; it is
+printed (1) as Nickel source, recording the byte span of every node, (2) as the s-expression of the
+model term read by the extracted evaluator (ocaml/c01/driver.ml), (3) as a *certificate*: the
+annotated term of coq/Types/Checker.v, validated by the extracted `check_deriv`.  The types the
+real typechecker resolves for the nodes (harness `tc` mode) are compared with the certificate's.
 
 Fragment: Number/String/Bool, arrays, functions, let (plain, annotated, polymorphic annotated),
 if, closed records + projection, enum tags + match (exhaustive or with a wildcard arm), the
@@ -7,8 +12,8 @@ primitives of Types/Syntax.v (+ - * / < <= > >= ! ++ @ == std.string.length std.
 std.array.at std.array.map, && || as if), inner annotations (e : T), and *closed* holes of untyped
 code behind a first-order contract ((u | T)), some of them deliberately ill-kinded or failing.
 
-Terms are pairs (src, sexp).  Types are tuples: ("num",) ("str",) ("bool",) ("dyn",) ("arr", T)
-("fun", A, B) ("rec", ((f, T), ...)) with fields sorted, ("enum", (tag, ...)) sorted.
+Types are tuples: ("num",) ("str",) ("bool",) ("dyn",) ("arr", T) ("fun", A, B)
+("rec", ((f, T), ...)) with fields sorted, ("enum", (tag, ...)) sorted, ("tvar", i) de Bruijn.
 """
 from vlib import core
 
@@ -36,25 +41,25 @@ def ty_src(t):
         return "{%s}" % ", ".join("%s : %s" % (f, ty_src(u)) for f, u in t[1])
     if k == "enum":
         return "[| %s |]" % ", ".join("'" + x for x in t[1])
-    if k == "tvar":
-        return t[1]
     raise ValueError(t)
 
 
-def ty_sexp(t, tvars=()):
+def ty_sexp(t):
     k = t[0]
     if k in ("num", "str", "bool", "dyn"):
         return k
     if k == "arr":
-        return "(arr %s)" % ty_sexp(t[1], tvars)
+        return "(arr %s)" % ty_sexp(t[1])
     if k == "fun":
-        return "(fun %s %s)" % (ty_sexp(t[1], tvars), ty_sexp(t[2], tvars))
+        return "(fun %s %s)" % (ty_sexp(t[1]), ty_sexp(t[2]))
     if k == "rec":
-        return "(rec %s)" % " ".join('("%s" %s)' % (f, ty_sexp(u, tvars)) for f, u in t[1])
+        return "(rec %s)" % " ".join('("%s" %s)' % (f, ty_sexp(u)) for f, u in t[1])
     if k == "enum":
         return "(enum %s)" % " ".join('"%s"' % x for x in t[1])
     if k == "tvar":
-        return "(tvar %d)" % list(tvars).index(t[1])
+        return "(tvar %d)" % t[1]
+    if k == "forall":
+        return "(forall %s)" % ty_sexp(t[1])
     raise ValueError(t)
 
 
@@ -73,18 +78,38 @@ def sstr(s):
     return '"' + s.replace("\\", "\\\\").replace('"', '\\"') + '"'
 
 
-def prim2(name, a, b):
-    return "(app (app (prim %s) %s) %s)" % (name, a, b)
+class N:
+    """AST node: kind k, children/attributes a, intended type ty (None in untyped code)."""
+    __slots__ = ("k", "a", "ty", "span", "x")
+
+    def __init__(self, k, a, ty=None, x=None):
+        self.k, self.a, self.ty, self.x, self.span = k, a, ty, x, None
 
 
-# polymorphic helpers bound at the top of (some) programs: name -> (annotation, source body, model body, arity info)
+# infix primitives: source operator, model primitive name
+INFIX = {"add": "+", "sub": "-", "mul": "*", "div": "/", "lt": "<", "le": "<=", "gt": ">", "ge": ">=",
+         "concat": "++", "arrcat": "@", "eq": "=="}
+STDFN = {"strlen": "std.string.length", "arrlen": "std.array.length", "arrat": "std.array.at", "arrmap": "std.array.map"}
+
+TV0, TV1 = ("tvar", 0), ("tvar", 1)
+# polymorphic helpers bound at the top of (some) programs:
+#   name -> (number of quantifiers, annotation source, body builder)
 POLY = {
-    "pid": ("forall a. a -> a", "fun x => x", '(lam "x" (var "x"))'),
-    "pconst": ("forall a b. a -> b -> a", "fun x y => x", '(lam "x" (lam "y" (var "x")))'),
-    "ptwice": ("forall a. (a -> a) -> a -> a", "fun f x => f (f x)",
-               '(lam "f" (lam "x" (app (var "f") (app (var "f") (var "x")))))'),
-    "pmap": ("forall a b. (a -> b) -> Array a -> Array b", "fun f xs => std.array.map f xs",
-             '(lam "f" (lam "xs" (app (app (prim arrmap) (var "f")) (var "xs"))))'),
+    "pid": (1, "forall a. a -> a",
+            lambda: N("lam", ["x", N("var", ["x"], TV0)], ("fun", TV0, TV0))),
+    "pconst": (2, "forall a b. a -> b -> a",
+               lambda: N("lam", ["x", N("lam", ["y", N("var", ["x"], TV1)], ("fun", TV0, TV1))],
+                         ("fun", TV1, ("fun", TV0, TV1)))),
+    "ptwice": (1, "forall a. (a -> a) -> a -> a",
+               lambda: N("lam", ["f", N("lam", ["x",
+                         N("app", [N("var", ["f"], ("fun", TV0, TV0)),
+                                   N("app", [N("var", ["f"], ("fun", TV0, TV0)), N("var", ["x"], TV0)], TV0)], TV0)],
+                         ("fun", TV0, TV0))], ("fun", ("fun", TV0, TV0), ("fun", TV0, TV0)))),
+    "pmap": (2, "forall a b. (a -> b) -> Array a -> Array b",
+             lambda: N("lam", ["f", N("lam", ["xs",
+                       N("prim2", ["arrmap", N("var", ["f"], ("fun", TV1, TV0)), N("var", ["xs"], ("arr", TV1))],
+                         ("arr", TV0), x=[TV1, TV0])], ("fun", ("arr", TV1), ("arr", TV0)))],
+                       ("fun", ("fun", TV1, TV0), ("fun", ("arr", TV1), ("arr", TV0))))),
 }
 
 
@@ -95,6 +120,7 @@ class Frag:
         self.holes = holes
         self.features = set()
         self.bad_holes = 0
+        self.err_sources = 0
         self.polys = []
 
     def fresh(self, p="x"):
@@ -130,35 +156,26 @@ class Frag:
         if k == "num":
             c = r.below(10)
             if c < 7:
-                n = r.range(0, 9)
-                return (str(n), "(num %d 1)" % n)
+                return N("num", [r.range(0, 9), 1], T)
             if c < 9:
-                n = r.range(1, 40)
-                return ("(-%d)" % n, "(num -%d 1)" % n)
+                return N("num", [-r.range(1, 40), 1], T)
             p, q = r.choice([(1, 2), (3, 2), (5, 4), (1, 10)])
-            return ({(1, 2): "0.5", (3, 2): "1.5", (5, 4): "1.25", (1, 10): "0.1"}[(p, q)], "(num %d %d)" % (p, q))
+            return N("num", [p, q], T)
         if k == "str":
-            s = r.choice(WORDS)
-            return (sstr(s), "(str %s)" % sstr(s))
+            return N("str", [r.choice(WORDS)], T)
         if k == "bool":
-            b = r.chance(1, 2)
-            return ("true" if b else "false", "(bool %s)" % ("true" if b else "false"))
+            return N("bool", [r.chance(1, 2)], T)
         if k == "arr":
             n = r.range(0, 3)
-            es = [self.gen(ctx, T[1], max(1, size // (n + 1))) for _ in range(n)]
-            return ("[%s]" % ", ".join(e[0] for e in es), "(arr %s)" % " ".join(e[1] for e in es))
+            return N("arr", [[self.gen(ctx, T[1], max(1, size // (n + 1))) for _ in range(n)]], T)
         if k == "rec":
-            es = [(f, self.gen(ctx, u, max(1, size // (len(T[1]) + 1)))) for f, u in T[1]]
-            return ("{%s}" % ", ".join("%s = %s" % (f, e[0]) for f, e in es),
-                    "(rec %s)" % " ".join('("%s" %s)' % (f, e[1]) for f, e in es))
+            return N("rec", [[(f, self.gen(ctx, u, max(1, size // (len(T[1]) + 1)))) for f, u in T[1]]], T)
         if k == "enum":
-            t = r.choice(T[1])
-            return ("'" + t, '(tag "%s")' % t)
+            return N("tag", [r.choice(T[1])], T)
         if k == "fun":
             x = self.fresh()
-            b = self.gen(ctx + [(x, T[1])], T[2], size - 1)
             self.features.add("lambda")
-            return ("(fun %s => %s)" % (x, b[0]), '(lam "%s" %s)' % (x, b[1]))
+            return N("lam", [x, self.gen(ctx + [(x, T[1])], T[2], size - 1)], T)
         raise ValueError(T)
 
     def vars_of(self, ctx, T):
@@ -169,8 +186,7 @@ class Frag:
         vs = self.vars_of(ctx, T)
         if size <= 1:
             if vs and r.chance(2, 3):
-                x = r.choice(vs)
-                return (x, '(var "%s")' % x)
+                return N("var", [r.choice(vs)], T)
             return self.lit(T, ctx, 1)
         k = T[0]
         prods = [("lit", 3), ("if", 2), ("let", 2), ("app", 2), ("annt", 1)]
@@ -192,98 +208,78 @@ class Frag:
         p = r.weighted(prods)
         h = max(1, size // 2)
         if p == "var":
-            x = r.choice(vs)
-            return (x, '(var "%s")' % x)
+            return N("var", [r.choice(vs)], T)
         if p == "lit":
             return self.lit(T, ctx, size)
         if p == "if":
-            c, a, b = self.gen(ctx, BOOL, h), self.gen(ctx, T, h), self.gen(ctx, T, h)
             self.features.add("if")
-            return ("(if %s then %s else %s)" % (c[0], a[0], b[0]), "(if %s %s %s)" % (c[1], a[1], b[1]))
+            return N("if", [self.gen(ctx, BOOL, h), self.gen(ctx, T, h), self.gen(ctx, T, h)], T)
         if p == "let":
             U = self.gen_type(1)
             x = self.fresh()
             e = self.gen(ctx, U, h)
             b = self.gen(ctx + [(x, U)], T, h)
-            if r.chance(1, 3):
-                self.features.add("let-annotated")
-                return ("(let %s : %s = %s in %s)" % (x, ty_src(U), e[0], b[0]),
-                        '(let "%s" (annt %s %s) %s)' % (x, e[1], ty_sexp(U), b[1]))
-            self.features.add("let")
-            return ("(let %s = %s in %s)" % (x, e[0], b[0]), '(let "%s" %s %s)' % (x, e[1], b[1]))
+            ann = r.chance(1, 3)
+            self.features.add("let-annotated" if ann else "let")
+            return N("let", [x, U if ann else None, e, b], T)
         if p == "app":
             fs = [(x, U) for (x, U) in ctx if U[0] == "fun" and U[2] == T]
             if fs and r.chance(2, 3):
                 f, U = r.choice(fs)
-                a = self.gen(ctx, U[1], h)
                 self.features.add("app-var")
-                return ("(%s %s)" % (f, a[0]), '(app (var "%s") %s)' % (f, a[1]))
+                return N("app", [N("var", [f], U), self.gen(ctx, U[1], h)], T)
             A = self.gen_type(1, False)
             f = self.lit(("fun", A, T), ctx, h)
-            a = self.gen(ctx, A, h)
             self.features.add("app-lambda")
-            return ("(%s %s)" % (f[0], a[0]), "(app %s %s)" % (f[1], a[1]))
+            return N("app", [f, self.gen(ctx, A, h)], T)
         if p == "annt":
-            e = self.gen(ctx, T, size - 1)
             self.features.add("inner-annotation")
-            return ("(%s : %s)" % (e[0], ty_src(T)), "(annt %s %s)" % (e[1], ty_sexp(T)))
+            return N("annt", [self.gen(ctx, T, size - 1)], T)
         if p == "hole":
             return self.hole(T, size)
         if p == "arith":
-            op, nm = r.weighted([(("+", "add"), 4), (("-", "sub"), 3), (("*", "mul"), 3), (("/", "div"), 1)])
-            a, b = self.gen(ctx, NUM, h), self.gen(ctx, NUM, h)
-            self.features.add("arith" + op)
-            return ("(%s %s %s)" % (a[0], op, b[0]), prim2(nm, a[1], b[1]))
+            nm = r.weighted([("add", 4), ("sub", 3), ("mul", 3), ("div", 1)])
+            if nm == "div":
+                self.err_sources += 1
+            self.features.add("arith" + INFIX[nm])
+            return N("prim2", [nm, self.gen(ctx, NUM, h), self.gen(ctx, NUM, h)], T, x=[])
         if p == "strlen":
-            a = self.gen(ctx, STR, size - 1)
             self.features.add("std.string.length")
-            return ("(std.string.length %s)" % a[0], "(app (prim strlen) %s)" % a[1])
+            return N("prim1", ["strlen", self.gen(ctx, STR, size - 1)], T, x=[])
         if p == "arrlen":
-            a = self.gen(ctx, ("arr", self.gen_type(1)), size - 1)
+            U = self.gen_type(1)
             self.features.add("std.array.length")
-            return ("(std.array.length %s)" % a[0], "(app (prim arrlen) %s)" % a[1])
+            return N("prim1", ["arrlen", self.gen(ctx, ("arr", U), size - 1)], T, x=[U])
         if p == "cmp":
-            op, nm = r.choice([("<", "lt"), ("<=", "le"), (">", "gt"), (">=", "ge")])
-            a, b = self.gen(ctx, NUM, h), self.gen(ctx, NUM, h)
+            nm = r.choice(["lt", "le", "gt", "ge"])
             self.features.add("compare")
-            return ("(%s %s %s)" % (a[0], op, b[0]), prim2(nm, a[1], b[1]))
+            return N("prim2", [nm, self.gen(ctx, NUM, h), self.gen(ctx, NUM, h)], T, x=[])
         if p == "eq":
             U = r.choice([NUM, STR, BOOL, ("enum", ("A", "B"))])
-            a, b = self.gen(ctx, U, h), self.gen(ctx, U, h)
             self.features.add("==")
-            return ("(%s == %s)" % (a[0], b[0]), prim2("eq", a[1], b[1]))
+            return N("prim2", ["eq", self.gen(ctx, U, h), self.gen(ctx, U, h)], T, x=[U, U])
         if p == "not":
-            a = self.gen(ctx, BOOL, size - 1)
             self.features.add("!")
-            return ("(!%s)" % a[0], "(app (prim not) %s)" % a[1])
+            return N("prim1", ["not", self.gen(ctx, BOOL, size - 1)], T, x=[])
         if p == "andor":
-            a, b = self.gen(ctx, BOOL, h), self.gen(ctx, BOOL, h)
             self.features.add("&&||")
-            if r.chance(1, 2):
-                return ("(%s && %s)" % (a[0], b[0]), "(if %s %s (bool false))" % (a[1], b[1]))
-            return ("(%s || %s)" % (a[0], b[0]), "(if %s (bool true) %s)" % (a[1], b[1]))
+            return N(r.choice(["and", "or"]), [self.gen(ctx, BOOL, h), self.gen(ctx, BOOL, h)], T)
         if p == "concat":
-            a, b = self.gen(ctx, STR, h), self.gen(ctx, STR, h)
             self.features.add("++")
-            return ("(%s ++ %s)" % (a[0], b[0]), prim2("concat", a[1], b[1]))
+            return N("prim2", ["concat", self.gen(ctx, STR, h), self.gen(ctx, STR, h)], T, x=[])
         if p == "arrcat":
-            a, b = self.gen(ctx, T, h), self.gen(ctx, T, h)
             self.features.add("@")
-            return ("(%s @ %s)" % (a[0], b[0]), prim2("arrcat", a[1], b[1]))
+            return N("prim2", ["arrcat", self.gen(ctx, T, h), self.gen(ctx, T, h)], T, x=[T[1]])
         if p == "map":
             A = self.gen_type(1, False)
-            f = self.gen(ctx, ("fun", A, T[1]), h)
-            a = self.gen(ctx, ("arr", A), h)
             self.features.add("std.array.map")
-            return ("(std.array.map %s %s)" % (f[0], a[0]), prim2("arrmap", f[1], a[1]))
+            return N("prim2", ["arrmap", self.gen(ctx, ("fun", A, T[1]), h), self.gen(ctx, ("arr", A), h)], T, x=[A, T[1]])
         if p == "proj":
-            # a record type with a field of type T
             others = [(f, self.gen_type(1)) for f in r.shuffle(FIELDS)[:r.range(0, 2)]]
             f = r.choice([g for g in FIELDS if g not in [o[0] for o in others]])
             R = ("rec", tuple(sorted(others + [(f, T)])))
-            e = self.gen(ctx, R, size - 1)
             self.features.add("projection")
-            return ("(%s).%s" % (e[0], f), '(proj %s "%s")' % (e[1], f))
+            return N("proj", [self.gen(ctx, R, size - 1), f], T)
         if p == "match":
             n = r.range(1, 3)
             tags = tuple(sorted(r.shuffle(TAGS)[:n]))
@@ -293,39 +289,34 @@ class Frag:
             if default and len(arms) > 1:
                 arms = arms[:-1]
             bs = [(t, self.gen(ctx, T, max(1, h // len(tags)))) for t in arms]
-            src_arms = ["'%s => %s" % (t, b[0]) for t, b in bs]
-            sx = "(%s)" % " ".join('("%s" %s)' % (t, b[1]) for t, b in bs)
-            if default:
-                d = self.gen(ctx, T, max(1, h // len(tags)))
-                src_arms.append("_ => %s" % d[0])
-                self.features.add("match-default")
-                return ("(%s |> match { %s })" % (s[0], ", ".join(src_arms)), "(match %s %s %s)" % (s[1], sx, d[1]))
-            self.features.add("match")
-            return ("(%s |> match { %s })" % (s[0], ", ".join(src_arms)), "(match %s %s)" % (s[1], sx))
+            d = self.gen(ctx, T, max(1, h // len(tags))) if default else None
+            self.features.add("match-default" if default else "match")
+            return N("match", [s, bs, d], T)
         if p == "at":
-            a = self.gen(ctx, ("arr", T), h)
-            i = r.range(0, 3)
+            self.err_sources += 1
             self.features.add("std.array.at")
-            return ("(std.array.at %d %s)" % (i, a[0]), prim2("arrat", "(num %d 1)" % i, a[1]))
+            return N("prim2", ["arrat", N("num", [r.range(0, 3), 1], NUM), self.gen(ctx, ("arr", T), h)], T, x=[T])
         if p == "poly":
             name = r.choice(self.polys)
+            if name == "pmap" and k != "arr":
+                name = "pid" if "pid" in self.polys else None
+                if name is None:
+                    return self.lit(T, ctx, size)
             self.features.add("poly:" + name)
             if name == "pid":
-                a = self.gen(ctx, T, size - 1)
-                return ("(pid %s)" % a[0], '(app (var "pid") %s)' % a[1])
+                return N("app", [N("var", ["pid"], ("fun", T, T), x=[T]), self.gen(ctx, T, size - 1)], T)
             if name == "pconst":
-                a, b = self.gen(ctx, T, h), self.gen(ctx, self.gen_type(1), h)
-                return ("(pconst %s %s)" % (a[0], b[0]), '(app (app (var "pconst") %s) %s)' % (a[1], b[1]))
+                U = self.gen_type(1)
+                f = N("var", ["pconst"], ("fun", T, ("fun", U, T)), x=[T, U])
+                return N("app", [N("app", [f, self.gen(ctx, T, h)], ("fun", U, T)), self.gen(ctx, U, h)], T)
             if name == "ptwice":
-                f, a = self.gen(ctx, ("fun", T, T), h), self.gen(ctx, T, h)
-                return ("(ptwice %s %s)" % (f[0], a[0]), '(app (app (var "ptwice") %s) %s)' % (f[1], a[1]))
+                f = N("var", ["ptwice"], ("fun", ("fun", T, T), ("fun", T, T)), x=[T])
+                return N("app", [N("app", [f, self.gen(ctx, ("fun", T, T), h)], ("fun", T, T)), self.gen(ctx, T, h)], T)
             if name == "pmap":
-                if k != "arr":
-                    a = self.gen(ctx, T, size - 1)
-                    return ("(pid %s)" % a[0], '(app (var "pid") %s)' % a[1]) if "pid" in self.polys else a
                 A = self.gen_type(1, False)
-                f, a = self.gen(ctx, ("fun", A, T[1]), h), self.gen(ctx, ("arr", A), h)
-                return ("(pmap %s %s)" % (f[0], a[0]), '(app (app (var "pmap") %s) %s)' % (f[1], a[1]))
+                f = N("var", ["pmap"], ("fun", ("fun", A, T[1]), ("fun", ("arr", A), T)), x=[A, T[1]])
+                return N("app", [N("app", [f, self.gen(ctx, ("fun", A, T[1]), h)], ("fun", ("arr", A), T)),
+                                 self.gen(ctx, ("arr", A), h)], T)
         raise ValueError(p)
 
     # ------------------------------------------------------------------ holes of untyped code
@@ -334,12 +325,12 @@ class Frag:
         r = self.rng
         flavour = r.weighted([("good", 12), ("wrong-kind", 2), ("fails", 1)])
         if self.bad_holes >= 1 and flavour != "good":
-            flavour = "good"       # at most one failing hole per program (keeps the first error unambiguous)
+            flavour = "good"       # at most one failing hole per program
         if flavour != "good":
             self.bad_holes += 1
+            self.err_sources += 1
         self.features.add("hole-" + flavour)
-        u = self.untyped(T, flavour, size)
-        return ("(%s | %s)" % (u[0], ty_src(T)), "(cast (untyped %s) %s)" % (u[1], ty_sexp(T)))
+        return N("hole", [self.untyped(T, flavour)], T, x=flavour)
 
     def untyped_value(self, T, depth=0):
         """a closed untyped term whose value satisfies T"""
@@ -350,29 +341,26 @@ class Frag:
         if k in ("num", "str", "bool", "enum"):
             base = self.lit(T, [], 1)
         elif k == "arr":
-            es = [self.untyped_value(T[1], depth + 1) for _ in range(r.range(0, 2))]
-            base = ("[%s]" % ", ".join(e[0] for e in es), "(arr %s)" % " ".join(e[1] for e in es))
+            base = N("arr", [[self.untyped_value(T[1], depth + 1) for _ in range(r.range(0, 2))]])
         elif k == "rec":
-            es = [(f, self.untyped_value(u, depth + 1)) for f, u in T[1]]
-            base = ("{%s}" % ", ".join("%s = %s" % (f, e[0]) for f, e in es),
-                    "(rec %s)" % " ".join('("%s" %s)' % (f, e[1]) for f, e in es))
+            base = N("rec", [[(f, self.untyped_value(u, depth + 1)) for f, u in T[1]]])
         else:
             raise ValueError(T)
+        base.ty = None
         c = r.below(8) if depth < 2 else 9
         if c == 0:
             z = self.fresh("u")
-            return ("((fun %s => %s) 1)" % (z, base[0]), '(app (lam "%s" %s) (num 1 1))' % (z, base[1]))
+            return N("app", [N("lam", [z, base]), N("num", [1, 1])])
         if c == 1:
             z = self.fresh("u")
-            return ("(let %s = %s in %s)" % (z, base[0], z), '(let "%s" %s (var "%s"))' % (z, base[1], z))
+            return N("let", [z, None, base, N("var", [z])])
         if c == 2:
-            return ("(if 1 < 2 then %s else \"no\")" % base[0],
-                    "(if %s %s (str \"no\"))" % (prim2("lt", "(num 1 1)", "(num 2 1)"), base[1]))
+            return N("if", [N("prim2", ["lt", N("num", [1, 1]), N("num", [2, 1])]), base, N("str", ["no"])])
         if c == 3:
-            return ("({zz = %s}).zz" % base[0], '(proj (rec ("zz" %s)) "zz")' % base[1])
+            return N("proj", [N("rec", [[("zz", base)]]), "zz"])
         return base
 
-    def untyped(self, T, flavour, size):
+    def untyped(self, T, flavour):
         r = self.rng
         if flavour == "good":
             return self.untyped_value(T)
@@ -380,7 +368,6 @@ class Frag:
             others = [U for U in [NUM, STR, BOOL, ("arr", NUM), ("rec", (("fa", NUM),)), ("enum", ("Zz",))]
                       if U[0] != T[0] and T[0] != "dyn"]
             if T[0] == "rec":
-                # a record with a missing or an extra field, or an ill-kinded field
                 c = r.below(3)
                 fs = list(T[1])
                 if c == 0 and len(fs) > 0:
@@ -394,18 +381,19 @@ class Frag:
             if T[0] == "arr" and r.chance(1, 2):
                 inner = [U for U in [NUM, STR, BOOL] if U[0] != T[1][0]]
                 return self.untyped_value(("arr", r.choice(inner)))
+            if T[0] == "enum":
+                return self.untyped_value(("enum", ("Zz",)))
             if not others:
                 return self.untyped_value(T)
             return self.untyped_value(r.choice(others))
-        # fails: untyped code raising a dynamic error of its own
         c = r.below(4)
         if c == 0:
-            return ("(1 2)", "(app (num 1 1) (num 2 1))")
+            return N("app", [N("num", [1, 1]), N("num", [2, 1])])
         if c == 1:
-            return ('("a" + 1)', prim2("add", '(str "a")', "(num 1 1)"))
+            return N("prim2", ["add", N("str", ["a"]), N("num", [1, 1])])
         if c == 2:
-            return ("({fa = 1}).zz", '(proj (rec ("fa" (num 1 1))) "zz")')
-        return ("('Zq |> match { 'Zr => 1 })", '(match (tag "Zq") (("Zr" (num 1 1))))')
+            return N("proj", [N("rec", [[("fa", N("num", [1, 1]))]]), "zz"])
+        return N("match", [N("tag", ["Zq"]), [("Zr", N("num", [1, 1]))], None])
 
     # ------------------------------------------------------------------ whole programs
     def program(self, size):
@@ -414,22 +402,391 @@ class Frag:
         npoly = r.weighted([(0, 3), (1, 3), (2, 2)])
         self.polys = r.shuffle(sorted(POLY))[:npoly]
         body = self.gen([], T, size)
-        src, sx = body
         for name in reversed(self.polys):
-            ann, s, m = POLY[name]
-            src = "let %s : %s = %s in %s" % (name, ann, s, src)
-            sx = '(let "%s" %s %s)' % (name, m, sx)
-        src = "(%s) : %s" % (src, ty_src(T))
-        return {"src": src, "sexp": sx, "type": T, "features": sorted(self.features), "bad_holes": self.bad_holes}
+            k, ann, mk = POLY[name]
+            body = N("plet", [name, k, ann, mk(), body], T)
+        pr = Printer()
+        pr.out("(")
+        pr.term(body)
+        pr.out(") : ")
+        a0 = pr.pos
+        pr.out(ty_src(T))
+        src = pr.text()
+        return {"src": src, "sexp": to_sexp(body), "cert": to_cert(body), "type": T, "ast": body,
+                "features": sorted(self.features), "bad_holes": self.bad_holes, "err_sources": self.err_sources,
+                "holes": pr.holes, "hole_annots": pr.hole_annots, "own_annot": (a0, pr.pos), "nodes": pr.nodes}
+
+
+# ---------------------------------------------------------------------- printing
+
+class Printer:
+    def __init__(self):
+        self.buf = []
+        self.pos = 0
+        self.holes = []     # spans of the untyped code of holes
+        self.hole_annots = []   # spans of the contract annotations of holes
+        self.nodes = []     # (node) in print order, with .span set
+
+    def out(self, s):
+        self.buf.append(s)
+        self.pos += len(s.encode())
+
+    def text(self):
+        return "".join(self.buf)
+
+    def term(self, n):
+        s0 = self.pos
+        k, a = n.k, n.a
+        if k == "num":
+            p, q = a
+            txt = {(1, 2): "0.5", (3, 2): "1.5", (5, 4): "1.25", (1, 10): "0.1"}.get((p, q)) if q != 1 else None
+            if q == 1:
+                txt = str(p) if p >= 0 else "(%d)" % p
+            self.out(txt)
+        elif k == "str":
+            self.out(sstr(a[0]))
+        elif k == "bool":
+            self.out("true" if a[0] else "false")
+        elif k == "var":
+            self.out(a[0])
+        elif k == "tag":
+            self.out("'" + a[0])
+        elif k == "lam":
+            self.out("(fun ")
+            xs = self.pos
+            self.out(a[0])
+            n.x = (xs, self.pos) if n.x is None else n.x
+            self.out(" => ")
+            self.term(a[1])
+            self.out(")")
+        elif k == "app":
+            self.out("(")
+            self.term(a[0])
+            self.out(" ")
+            self.term(a[1])
+            self.out(")")
+        elif k == "let":
+            self.out("(let %s" % a[0])
+            if a[1] is not None:
+                self.out(" : %s" % ty_src(a[1]))
+            self.out(" = ")
+            self.term(a[2])
+            self.out(" in ")
+            self.term(a[3])
+            self.out(")")
+        elif k == "plet":
+            self.out("let %s : %s = " % (a[0], a[2]))
+            self.term(a[3])
+            self.out(" in ")
+            self.term(a[4])
+        elif k == "if":
+            self.out("(if ")
+            self.term(a[0])
+            self.out(" then ")
+            self.term(a[1])
+            self.out(" else ")
+            self.term(a[2])
+            self.out(")")
+        elif k == "arr":
+            self.out("[")
+            for i, e in enumerate(a[0]):
+                if i:
+                    self.out(", ")
+                self.term(e)
+            self.out("]")
+        elif k == "rec":
+            self.out("{")
+            for i, (f, e) in enumerate(a[0]):
+                if i:
+                    self.out(", ")
+                self.out("%s = " % f)
+                self.term(e)
+            self.out("}")
+        elif k == "proj":
+            self.out("(")
+            self.term(a[0])
+            self.out(").%s" % a[1])
+        elif k == "match":
+            self.out("(")
+            self.term(a[0])
+            self.out(" |> match { ")
+            first = True
+            for t, b in a[1]:
+                if not first:
+                    self.out(", ")
+                first = False
+                self.out("'%s => " % t)
+                self.term(b)
+            if a[2] is not None:
+                if not first:
+                    self.out(", ")
+                self.out("_ => ")
+                self.term(a[2])
+            self.out(" })")
+        elif k == "prim2":
+            nm = a[0]
+            self.out("(")
+            if nm in INFIX:
+                self.term(a[1])
+                self.out(" %s " % INFIX[nm])
+                self.term(a[2])
+            else:
+                self.out(STDFN[nm] + " ")
+                self.term(a[1])
+                self.out(" ")
+                self.term(a[2])
+            self.out(")")
+        elif k == "prim1":
+            self.out("(")
+            self.out("!" if a[0] == "not" else STDFN[a[0]] + " ")
+            self.term(a[1])
+            self.out(")")
+        elif k in ("and", "or"):
+            self.out("(")
+            self.term(a[0])
+            self.out(" && " if k == "and" else " || ")
+            self.term(a[1])
+            self.out(")")
+        elif k == "annt":
+            self.out("(")
+            self.term(a[0])
+            self.out(" : %s)" % ty_src(n.ty))
+        elif k == "hole":
+            self.out("(")
+            h0 = self.pos
+            self.term(a[0])
+            self.holes.append((h0, self.pos))
+            self.out(" | ")
+            c0 = self.pos
+            self.out(ty_src(n.ty))
+            self.hole_annots.append((c0, self.pos))
+            self.out(")")
+        else:
+            raise ValueError(k)
+        n.span = (s0, self.pos)
+        self.nodes.append(n)
+
+
+def q_sexp(p, q):
+    return "(num %d %d)" % (p, q)
+
+
+def to_sexp(n):
+    k, a = n.k, n.a
+    if k == "num":
+        return q_sexp(*a)
+    if k == "str":
+        return "(str %s)" % sstr(a[0])
+    if k == "bool":
+        return "(bool %s)" % ("true" if a[0] else "false")
+    if k == "var":
+        return '(var "%s")' % a[0]
+    if k == "tag":
+        return '(tag "%s")' % a[0]
+    if k == "lam":
+        return '(lam "%s" %s)' % (a[0], to_sexp(a[1]))
+    if k == "app":
+        return "(app %s %s)" % (to_sexp(a[0]), to_sexp(a[1]))
+    if k == "let":
+        e = to_sexp(a[2])
+        if a[1] is not None:
+            e = "(annt %s %s)" % (e, ty_sexp(a[1]))
+        return '(let "%s" %s %s)' % (a[0], e, to_sexp(a[3]))
+    if k == "plet":
+        return '(let "%s" %s %s)' % (a[0], to_sexp(a[3]), to_sexp(a[4]))
+    if k == "if":
+        return "(if %s %s %s)" % tuple(to_sexp(x) for x in a)
+    if k == "arr":
+        return "(arr %s)" % " ".join(to_sexp(e) for e in a[0])
+    if k == "rec":
+        return "(rec %s)" % " ".join('("%s" %s)' % (f, to_sexp(e)) for f, e in a[0])
+    if k == "proj":
+        return '(proj %s "%s")' % (to_sexp(a[0]), a[1])
+    if k == "match":
+        bs = "(%s)" % " ".join('("%s" %s)' % (t, to_sexp(b)) for t, b in a[1])
+        if a[2] is not None:
+            return "(match %s %s %s)" % (to_sexp(a[0]), bs, to_sexp(a[2]))
+        return "(match %s %s)" % (to_sexp(a[0]), bs)
+    if k == "prim2":
+        return "(app (app (prim %s) %s) %s)" % (a[0], to_sexp(a[1]), to_sexp(a[2]))
+    if k == "prim1":
+        return "(app (prim %s) %s)" % (a[0], to_sexp(a[1]))
+    if k == "and":
+        return "(if %s %s (bool false))" % (to_sexp(a[0]), to_sexp(a[1]))
+    if k == "or":
+        return "(if %s (bool true) %s)" % (to_sexp(a[0]), to_sexp(a[1]))
+    if k == "annt":
+        return "(annt %s %s)" % (to_sexp(a[0]), ty_sexp(n.ty))
+    if k == "hole":
+        return "(cast (untyped %s) %s)" % (to_sexp(a[0]), ty_sexp(n.ty))
+    raise ValueError(k)
+
+
+def insts_sexp(ts):
+    return "(%s)" % " ".join(ty_sexp(t) for t in ts)
+
+
+def to_cert(n):
+    """the annotated term of coq/Types/Checker.v (as an s-expression)"""
+    k, a = n.k, n.a
+    if k == "num":
+        return "(anum %d %d)" % tuple(a)
+    if k == "str":
+        return "(astr %s)" % sstr(a[0])
+    if k == "bool":
+        return "(abool %s)" % ("true" if a[0] else "false")
+    if k == "var":
+        return '(avar "%s" %s)' % (a[0], insts_sexp(n.x if isinstance(n.x, list) else []))
+    if k == "tag":
+        return '(atag "%s" (%s))' % (a[0], " ".join('"%s"' % t for t in n.ty[1]))
+    if k == "lam":
+        return '(alam "%s" %s %s)' % (a[0], ty_sexp(n.ty[1]), to_cert(a[1]))
+    if k == "app":
+        return "(aapp %s %s)" % (to_cert(a[0]), to_cert(a[1]))
+    if k == "let":
+        e = to_cert(a[2])
+        if a[1] is not None:
+            e = "(aannt %s %s)" % (e, ty_sexp(a[1]))
+        return '(alet "%s" 0 %s %s)' % (a[0], e, to_cert(a[3]))
+    if k == "plet":
+        return '(alet "%s" %d %s %s)' % (a[0], a[1], to_cert(a[3]), to_cert(a[4]))
+    if k == "if":
+        return "(aif %s %s %s)" % tuple(to_cert(x) for x in a)
+    if k == "arr":
+        return "(aarr %s (%s))" % (ty_sexp(n.ty[1]), " ".join(to_cert(e) for e in a[0]))
+    if k == "rec":
+        return "(arec %s)" % " ".join('("%s" %s)' % (f, to_cert(e)) for f, e in a[0])
+    if k == "proj":
+        return '(aproj %s "%s")' % (to_cert(a[0]), a[1])
+    if k == "match":
+        bs = "(%s)" % " ".join('("%s" %s)' % (t, to_cert(b)) for t, b in a[1])
+        d = (" " + to_cert(a[2])) if a[2] is not None else ""
+        return "(amatch %s %s %s%s)" % (to_cert(a[0]), ty_sexp(n.ty), bs, d)
+    if k == "prim2":
+        return "(aapp (aapp (aprim %s %s) %s) %s)" % (a[0], insts_sexp(n.x or []), to_cert(a[1]), to_cert(a[2]))
+    if k == "prim1":
+        return "(aapp (aprim %s %s) %s)" % (a[0], insts_sexp(n.x or []), to_cert(a[1]))
+    if k == "and":
+        return "(aif %s %s (abool false))" % (to_cert(a[0]), to_cert(a[1]))
+    if k == "or":
+        return "(aif %s (abool true) %s)" % (to_cert(a[0]), to_cert(a[1]))
+    if k == "annt":
+        return "(aannt %s %s)" % (to_cert(a[0]), ty_sexp(n.ty))
+    if k == "hole":
+        return "(acast (auntyped %s) %s)" % (to_sexp(a[0]), ty_sexp(n.ty))
+    raise ValueError(k)
 
 
 def gen_program(rng, size, holes=True):
     return Frag(rng, holes).program(size)
 
 
+# ---------------------------------------------------------------------- real typechecker's types
+
+def conv_tc_type(t):
+    """type s-expression of the harness (checks/c01_sig.parse_sexps shape) -> fragment type, with
+    ("any",) for unresolved unification variables / open rows, or None when outside the fragment"""
+    if isinstance(t, str):
+        return {"num": NUM, "str": STR, "bool": BOOL, "dyn": DYN}.get(t)
+    h = t[0]
+    if h == "var":
+        return ("any",) if t[1][1].startswith("_") else ("rigid", t[1][1])
+    if h == "arr":
+        u = conv_tc_type(t[1])
+        return ("arr", u) if u else None
+    if h == "fun":
+        a, b = conv_tc_type(t[1]), conv_tc_type(t[2])
+        return ("fun", a, b) if a and b else None
+    if h == "rec":
+        fs = []
+        for r in t[1]:
+            u = conv_tc_type(r[1])
+            if not u:
+                return None
+            fs.append((r[0][1], u))
+        return ("rec", tuple(sorted(fs))) if t[2] == "closed" else ("rec-open", tuple(sorted(fs)))
+    if h == "enum":
+        if any(len(r) > 1 for r in t[1]):
+            return None
+        tags = tuple(sorted(r[0][1] for r in t[1]))
+        return ("enum", tags) if t[2] == "closed" else ("enum-open", tags)
+    if h == "forall":
+        return ("poly",)
+    return None
+
+
+def ty_match(real, want):
+    """does the resolved type `real` (with wildcards) agree with the certificate's type `want`?"""
+    if real is None:
+        return False
+    k = real[0]
+    if k == "any":
+        return True
+    if k == "poly":
+        return True          # the polymorphic type of a let-bound helper: its instance is checked at the arguments
+    if k == "rigid":
+        # a rigid variable of an enclosing `forall`, or an unresolved unification variable that kept
+        # the name of the quantifier it instantiates
+        return True
+    if k == "enum-open":
+        return want[0] == "enum" and set(real[1]) <= set(want[1])
+    if k == "rec-open":
+        return want[0] == "rec" and all(any(f == g and ty_match(u, v) for g, v in want[1]) for f, u in real[1])
+    if k != want[0]:
+        return False
+    if k in ("num", "str", "bool", "dyn"):
+        return True
+    if k == "arr":
+        return ty_match(real[1], want[1])
+    if k == "fun":
+        return ty_match(real[1], want[1]) and ty_match(real[2], want[2])
+    if k == "rec":
+        return len(real[1]) == len(want[1]) and all(f == g and ty_match(u, v) for (f, u), (g, v) in zip(real[1], want[1]))
+    if k == "enum":
+        return real[1] == want[1]
+    return False
+
+
+KIND_OF = {"num": "Number", "str": "String", "bool": "Bool", "var": "Var", "tag": "EnumVariant", "lam": "Fun",
+           "app": "App", "let": "Let", "if": "IfThenElse", "arr": "Array", "rec": "Record", "annt": "Annotated",
+           "hole": "Annotated", "match": "App", "prim2": None, "prim1": None, "proj": "PrimOpApp"}
+
+
+def compare_with_tc(prog, terms):
+    """terms: [(s, e, kind, type-sexp)] from the harness.  For every typed node of the generated AST
+    whose span (with or without its parentheses) and node kind the typechecker reported, the resolved
+    type must agree with the certificate's.  Returns (n_compared, [mismatch descriptions])."""
+    by = {}
+    for (s, e, kind, ty) in terms:
+        by[(s, e, kind)] = ty
+    n, bad = 0, []
+    for nd in prog["nodes"]:
+        if nd.ty is None or nd.span is None:
+            continue
+        kind = KIND_OF.get(nd.k)
+        if nd.k == "prim2":
+            kind = "PrimOpApp" if nd.a[0] in INFIX else "App"
+        if nd.k == "prim1":
+            kind = "PrimOpApp" if nd.a[0] == "not" else "App"
+        if kind is None:
+            continue
+        s, e = nd.span
+        ty = by.get((s, e, kind))
+        if ty is None:
+            ty = by.get((s + 1, e - 1, kind))
+        if ty is None:
+            continue
+        real = conv_tc_type(ty)
+        n += 1
+        if not ty_match(real, nd.ty):
+            bad.append("%s at %d-%d: typechecker %r, certificate %s" % (nd.k, s, e, ty, ty_sexp(nd.ty)))
+    return n, bad
+
+
 # ---------------------------------------------------------------------- comparing outcomes
 
 ALLOWED_EQUIV = {"Index": {"OtherErr", "Blame+", "Blame-"}}
+DYN_TYPE_ERRS = {"TypeErr", "NotAFunc", "FieldMissing", "NonExhaustive", "UnboundId"}
 
 
 def canon_impl(line):
@@ -457,3 +814,60 @@ def agree(impl_line, model_line):
     if ic == mc:
         return True
     return ic in ALLOWED_EQUIV.get(mc, ())
+
+
+def impl_positions(line):
+    """[(file, s, e)] of an ERR answer"""
+    import re
+    m = re.search(r" pos=(\S+)", line)
+    out = []
+    if m and m.group(1) != "none":
+        for p in m.group(1).split(","):
+            f, _, se = p.partition(":")
+            s, _, e = se.partition("-")
+            out.append((f, int(s), int(e)))
+    return out
+
+
+def in_hole(prog, pos):
+    f, s, e = pos
+    return f == "main" and any(a <= s and e <= b for (a, b) in prog["holes"])
+
+
+def impl_label(line):
+    """(file, s, e, polarity) of a Blame answer, or None"""
+    import re
+    m = re.search(r" label=(\w+):(\d+)-(\d+) pol=([+-])", line)
+    return (m.group(1), int(m.group(2)), int(m.group(3)), m.group(4)) if m else None
+
+
+def direct_oracle(prog, line):
+    """The property on the implementation, no model involved.  -> (verdict, detail) with verdict in
+    {"ok", "rejected", "allowed-error", "untyped-origin", "violation", "crash"}."""
+    cls, _ = canon_impl(line)
+    if cls == "OK":
+        return "ok", ""
+    if cls in ("Typecheck", "Parse"):
+        return "rejected", cls
+    if cls in ("Panic", "Crash"):
+        return "crash", cls
+    if cls in DYN_TYPE_ERRS or cls == "TailAccess":
+        pos = impl_positions(line)
+        if pos and in_hole(prog, pos[0]):
+            return "untyped-origin", cls
+        return "violation", "%s raised at %s, outside every hole of untyped code" % (cls, pos[:1])
+    if cls.startswith("Blame"):
+        lab = impl_label(line)
+        if lab is None:
+            return "violation", "blame without a label position"
+        f, s, e, pol = lab
+        if f == "main":
+            if any(a <= s and e <= b for (a, b) in prog["hole_annots"]):
+                if pol == "+":
+                    return "allowed-error", "hole blamed"
+                return "violation", "the typed context of a hole is blamed (negative polarity)"
+            return "violation", "typed code is blamed for a static annotation of the program (label %d-%d %s)" % (s, e, pol)
+        if pol == "-":
+            return "allowed-error", "precondition of a library function (negative blame on its contract)"
+        return "violation", "library contract blames the library function itself (positive polarity, label in %s)" % f
+    return "allowed-error", cls
